@@ -58,6 +58,13 @@ def reservation_scope(namespace, binding):
     namespaces = {namespace}
 
     for node in binding.references:
+        # An assignment expression target in a comprehension is bound in an enclosing namespace,
+        # but its name must also be unused in the comprehension namespaces the expression is in
+        inner = getattr(node, 'reference_namespace', None)
+        while inner is not None and inner is not namespace and inner not in namespaces:
+            namespaces.add(inner)
+            inner = inner.namespace if inner.namespace is not inner else None
+
         while node is not namespace:
             namespaces.add(node.namespace)
             node = node.namespace
